@@ -237,8 +237,8 @@ func memberProduct(c *Ctx, prefix string) {
 				if val != nil && string(val) == string(kvs[i].v) {
 					continue // replacement equals the original value
 				}
-				if key != "ver" {
-					op["_expectOK"] = false // every member other than the version string is needed for acceptance
+				if key != "ver" && key != "ecdaaKeyId" {
+					op["_expectOK"] = false // every member other than the version string (and the unread ecdaaKeyId) is needed for acceptance
 				}
 				executors["attest"](c, prefix+"."+f, op)
 			}
@@ -257,7 +257,7 @@ func memberProduct(c *Ctx, prefix string) {
 				mb.Stmt = cborMap(flat...)
 				op := mb.AttestOp(fmtID(f))
 				op["_dev"] = "key-" + key
-				if key != "ver" {
+				if key != "ver" && key != "ecdaaKeyId" {
 					op["_expectOK"] = false
 				}
 				executors["attest"](c, prefix+"."+f, op)
